@@ -750,6 +750,13 @@ pub fn replay(prop: &'static dyn Prop, path: &str, duck: Option<PathBuf>) -> i32
         }
         None => {
             println!("replay of {}: not reproduced ({})", path, r["verdict"]);
+            if std::env::var("DSIM_LOG").is_ok() {
+                if let Some(log) = r["log"].as_array() {
+                    for e in log {
+                        println!("  {}", e);
+                    }
+                }
+            }
             0
         }
     }
